@@ -18,7 +18,7 @@ def ResSame (r1 r2 : Res HState) : Prop :=
 /-- one rule-layer action in the loop (`X`, from the loop state) and in the abstract evaluation (`Xg`):
     both succeed with states that agree, the loop state carrying the last-argument marker `l'` and no
     inversion flag; or both throw the same exception -/
-def StepRel (l' : Option Nat) (X Xg : Res HState) : Prop :=
+def ParseStepRel (l' : Option Nat) (X Xg : Res HState) : Prop :=
   match X, Xg with
   | .ok h', .ok g' => g'.Same h' ∧ g'.inverted = false ∧ h'.lastArg = l' ∧ h'.inverted = false
   | .throw e, .throw e' => e = e'
@@ -33,10 +33,10 @@ theorem same_with_last {h g : HState} (hs : g.Same h) (hg : g.inverted = false) 
 /-- a key element: `mpLastArg = hdl; handleIdentifiedArg( hdl, key, value)` on both sides -/
 theorem key_rel (cfg : Cfg) {h g : HState} (i : Nat) (d : ArgDef) (v : Word) (hs : g.Same h)
     (hg : g.inverted = false) (hi : h.inverted = false) :
-    StepRel (some i) (handleIdentifiedArg cfg { h with lastArg := some i } i d v)
+    ParseStepRel (some i) (handleIdentifiedArg cfg { h with lastArg := some i } i d v)
       (handleIdentifiedArg cfg { g with lastArg := some i } i d v) := by
   obtain ⟨m, rfl⟩ := same_with_last hs hg hi
-  show StepRel (some i) (handleIdentifiedArg cfg { h with lastArg := some i } i d v)
+  show ParseStepRel (some i) (handleIdentifiedArg cfg { h with lastArg := some i } i d v)
     (handleIdentifiedArg cfg { h with lastArg := some i } i d v)
   cases hx : handleIdentifiedArg cfg { h with lastArg := some i } i d v with
   | ok r =>
@@ -48,7 +48,7 @@ theorem key_rel (cfg : Cfg) {h g : HState} (i : Nat) (d : ArgDef) (v : Word) (hs
 /-- a free value of the last multi-value argument -/
 theorem free_rel {h g : HState} (i : Nat) (d : ArgDef) (v : Word) (hs : g.Same h)
     (hg : g.inverted = false) (hi : h.inverted = false) :
-    StepRel h.lastArg (assignValue h i d v false) (assignValue g i d v false) := by
+    ParseStepRel h.lastArg (assignValue h i d v false) (assignValue g i d v false) := by
   obtain ⟨m, rfl⟩ := same_with_last hs hg hi
   rw [assignValue_lastArg h m]
   cases hx : assignValue h i d v false with
@@ -61,9 +61,9 @@ theorem free_rel {h g : HState} (i : Nat) (d : ArgDef) (v : Word) (hs : g.Same h
 /-- a value of the positional argument: the loop leaves `mpLastArg` alone -/
 theorem pos_rel (cfg : Cfg) {h g : HState} (i : Nat) (d : ArgDef) (v : Word) (hs : g.Same h)
     (hg : g.inverted = false) (hi : h.inverted = false) :
-    StepRel h.lastArg (handleIdentifiedArg cfg h i d v) (handleIdentifiedArg cfg { g with lastArg := some i } i d v) := by
+    ParseStepRel h.lastArg (handleIdentifiedArg cfg h i d v) (handleIdentifiedArg cfg { g with lastArg := some i } i d v) := by
   obtain ⟨m, rfl⟩ := same_with_last hs hg hi
-  show StepRel h.lastArg (handleIdentifiedArg cfg h i d v) (handleIdentifiedArg cfg { h with lastArg := some i } i d v)
+  show ParseStepRel h.lastArg (handleIdentifiedArg cfg h i d v) (handleIdentifiedArg cfg { h with lastArg := some i } i d v)
   rw [handleIdentifiedArg_lastArg cfg h (some i)]
   cases hx : handleIdentifiedArg cfg h i d v with
   | ok r =>
@@ -126,7 +126,7 @@ theorem cont_complete {cfg : Cfg} {l : Option Nat} {inv : Bool} {pos : Pos} {us 
 theorem use_complete {cfg : Cfg} {l' : Option Nat} {pos' : Pos} {us : List Use} {argv : List Word}
     {h : HState} {ai ai' : It} {fuel : Nat} {X Xg : Res HState} (h1 : 1 ≤ argv.length) (hne : ai.atEnd = false)
     (he : evalSingleArgument cfg h ai = (X >>= fun h' => pure (h', ai', ArgResult.consumed)))
-    (hrel : StepRel l' X Xg) (sp : SP cfg l' false (nextTok false pos') us)
+    (hrel : ParseStepRel l' X Xg) (sp : SP cfg l' false (nextTok false pos') us)
     (ih : LoopOK cfg l' false (nextTok false pos') us) (hrep : Rep ai' argv pos') (hrem : ai'.remAsValue = false)
     (hno : ∀ w, iterateLoop cfg (fuel + 1) h ai ≠ .oob w) :
     ResSame (iterateLoop cfg (fuel + 1) h ai) (Xg >>= fun g' => applyUses cfg g' us) := by
